@@ -161,6 +161,12 @@ class DegChecker:
                     self.report(e, f"`{src(e)}` applies {short} to a value of shift degree {d}: result is not shift-equivariant")
                 return TOP
             return Fraction(0)
+        if short in ("reciprocal", "negative", "abs", "absolute") and name.split(".")[0] in ("np", "numpy"):
+            # 1/x, -x, |x| of a shift-invariant quantity are shift-invariant; of anything else the result has no degree
+            d = args[0] if args else POLY
+            if short in ("negative",):
+                return d if d in (POLY, TOP) else -d
+            return d if d in (Fraction(0), POLY) else TOP
         if short in ("logaddexp",):
             d = join(args[0], args[1]) if len(args) == 2 else TOP
             if d == TOP and TOP not in args:
